@@ -1,7 +1,7 @@
 //! C06 — one response per query, independent of parallelism, order and schedule
 use crate::engine::{canon_json, finish, guarded, par_blocks, RunInfo, Stats, Tier};
 use crate::props::c12::{base_net, project, tagq, BOLT};
-use crate::props::c19::{explore_scenario, fixture_spec, Scenario};
+use crate::props::c19::{fixture_spec, Scenario};
 use crate::world::app::{AppSpec, Scratch};
 use routee_compass::app::compass::compass_app::CompassApp;
 use routee_compass::app::compass::compass_app_ops::apply_load_balancing_policy;
@@ -280,10 +280,10 @@ fn schedule_scenarios(tier: Tier) -> Vec<(bool, Scenario, Option<usize>)> {
     let qa = crate::props::c19::query_alphabet();
     let q = |i: usize, id: &str| tagq(&qa[i], id);
     let e = |o: usize, d: usize, id: &str| tagq(&json!({"origin_vertex": o, "destination_vertex": d, "model_name": "bolt", "starting_soc_percent": 70}), id);
-    let cb = Some(tier.pick(2, 3));
+    let cb = Some(tier.pick(3, 4));
     vec![
         (false, Scenario { name: "c06_2x2_jsonl".into(), batches: vec![vec![q(0, "a0"), q(2, "a1")], vec![q(1, "b0"), q(4, "b1")]], csv: false, flush_rate: 1, keep_responses: true, fresh_app: false, combined: false }, None),
-        (false, Scenario { name: "c06_3x1_csv".into(), batches: vec![vec![q(0, "a0")], vec![q(2, "b0")], vec![q(3, "c0")]], csv: true, flush_rate: 1, keep_responses: true, fresh_app: false, combined: false }, Some(tier.pick(2, 4))),
+        (false, Scenario { name: "c06_3x1_csv".into(), batches: vec![vec![q(0, "a0")], vec![q(2, "b0")], vec![q(3, "c0")]], csv: true, flush_rate: 1, keep_responses: true, fresh_app: false, combined: false }, Some(tier.pick(3, 5))),
         // shared prediction cache, two tasks running battery-electric queries over one FloatCachePolicy.
         // warm: every lookup is a hit (the cache was filled by the alone runs); cold: a fresh application per execution, so that
         // misses, the model call and the update of two workers interleave; distinct: the two workers meet the keys in different orders
@@ -294,17 +294,31 @@ fn schedule_scenarios(tier: Tier) -> Vec<(bool, Scenario, Option<usize>)> {
 }
 
 fn schedules(tier: Tier, st: &mut Stats, bounds: &mut serde_json::Map<String, Value>) -> Result<(), String> {
-    let fx_plain = fixture_spec(&AppSpec::simple(base_net()))?;
-    let fx_cache = fixture_spec(&cache_spec())?;
-    for (cache, sc, bound) in schedule_scenarios(tier) {
-        let t0 = std::time::Instant::now();
-        let (orders, schedules) = explore_scenario(if cache { &fx_cache } else { &fx_plain }, &sc, bound, tier.pick(20_000, 1_000_000), "C06", st)?;
-        bounds.insert(sc.name.clone(), json!({"preemption_bound": bound.map(|b| json!(b)).unwrap_or(json!("unbounded (complete)")), "schedules": schedules, "distinct_file_orders": orders, "wall_s": (t0.elapsed().as_secs_f64() * 10.0).round() / 10.0}));
-        if orders < 2 {
-            st.violation("harness", "vacuous_exploration", 0, || format!("scenario {} produced a single file order", sc.name), || json!({}));
-        }
-    }
+    // one worker process per scenario (the scheduling hook is global to a process)
+    let s = crate::props::c19::explore_in_workers("C06", tier, schedule_scenarios(tier).len() as u64, bounds)?;
+    st.merge(s);
     Ok(())
+}
+
+pub fn worker(args: &[String]) -> i32 {
+    let tier = if args.first().map(|s| s.as_str()) == Some("thorough") { Tier::Thorough } else { Tier::Quick };
+    let scs = schedule_scenarios(tier);
+    let mut fx_plain: Option<crate::props::c19::Fixture> = None;
+    let mut fx_cache: Option<crate::props::c19::Fixture> = None;
+    crate::engine::sandbox::worker_loop(|i, st| {
+        let (cache, sc, bound) = &scs[i as usize];
+        let slot = if *cache { &mut fx_cache } else { &mut fx_plain };
+        if slot.is_none() {
+            match fixture_spec(&if *cache { cache_spec() } else { AppSpec::simple(base_net()) }) {
+                Ok(f) => *slot = Some(f),
+                Err(e) => {
+                    st.notes.insert(format!("MACHINERY {}", e));
+                    return;
+                }
+            }
+        }
+        crate::props::c19::explore_and_note(slot.as_ref().unwrap(), sc, *bound, tier.pick(20_000, 1_000_000), "C06", st);
+    })
 }
 
 pub fn run(tier: Tier) -> i32 {
